@@ -8,6 +8,10 @@ from .engine import Exec, zint, INT_CTYPES
 from . import api
 
 
+MUTATORS = {"append", "extend", "pop", "add", "update", "remove", "clear", "insert", "setdefault", "popitem", "discard",
+            "write", "add_match", "sort", "reverse"}
+
+
 def assigned_paths(stmts):
     """name -> None (whole variable may change) or set of top-level fields that may change."""
     out = {}
@@ -31,9 +35,13 @@ def assigned_paths(stmts):
                 targets = [n.target]
             elif isinstance(n, ast.With):
                 targets = [i.optional_vars for i in n.items if i.optional_vars is not None]
+            elif isinstance(n, ast.Delete):
+                targets = list(n.targets)
             elif isinstance(n, ast.Expr) and isinstance(n.value, ast.Call) and isinstance(n.value.func, ast.Attribute):
                 # method call on a name may mutate it (append, add_match ...)
                 targets = [n.value.func.value]
+            elif isinstance(n, ast.Call) and isinstance(n.func, ast.Attribute) and n.func.attr in MUTATORS:
+                targets = [n.func.value]
             elif isinstance(n, ast.Expr) and isinstance(n.value, ast.Call) and isinstance(n.value.func, ast.Name) \
                     and n.value.func.id == "print":
                 add("$nprinted", None)
@@ -222,6 +230,9 @@ class ExecS(Exec):
                 self.store_carr(target.value, nb, st, node)
             elif isinstance(base, MapV):
                 self.assign(target.value, MapV(z3.Store(base.arr, zint(idx), v.arr if isinstance(v, MapV) else zint(v))), st, node)
+            elif isinstance(base, DictIntV):
+                k_ = zint(idx)
+                self.assign(target.value, DictIntV(z3.Store(base.has, k_, z3.BoolVal(True)), z3.Store(base.val, k_, zint(v))), st, node)
             elif isinstance(base, ObjV):
                 h = self.world.method_handler(base.cls, "__setitem__")
                 if h is None:
@@ -405,11 +416,21 @@ class ExecS(Exec):
 
     def s_Delete(self, s, st):
         st = st.copy()
+        outs = []
         for t in s.targets:
             if isinstance(t, ast.Name):
                 st.env.pop(t.id, None)
+            elif isinstance(t, ast.Subscript):
+                base = self.ev(t.value, st)
+                if not isinstance(base, DictIntV):
+                    raise Unsupported("del of an item of a non-dict")
+                k_ = zint(self.ev(t.slice, st))
+                self.cx.pending.append((z3.Not(base.has[k_]), "KeyError"))
+                outs += self.split_pending(st, s)
+                self.assign(t.value, DictIntV(z3.Store(base.has, k_, z3.BoolVal(False)), base.val), st, s)
             else:
-                raise Unsupported("del of non-name")
+                raise Unsupported("del of this target")
+        return outs + [Outcome("normal", st)]
         return [Outcome("normal", st)]
 
     def s_With(self, s, st):
